@@ -36,45 +36,65 @@ DPKG = "internal/dnsforward"
 FILES = ["zz_verif_common_test.go", "zz_verif_c06_test.go"]
 
 KEY_FORWARD = "canon-in-table-without-value-forwarded"
-WHAT_FORWARD = ("a CNAME rewrite whose canonical name is itself matched by the table but has no value for the "
-                "requested type is forwarded upstream for the canonical name (the upstream's records are "
-                "answered) instead of the empty successful answer")
+# Known deviation (as attributed by the harness / TraceRewrites from the spec's own
+# "admit deviation" sets) -> finding key and description.
+FINDINGS = {
+    "fwd": (KEY_FORWARD,
+            "a CNAME rewrite whose canonical name is itself matched by the table but has no value for the requested type "
+            "is forwarded upstream for the canonical name instead of the empty successful answer"),
+    "tie": ("most-specific-wildcard-keeps-one-entry",
+            "of several entries of the most specific wildcard pattern only the first in table order is used: "
+            "'*.h -> AAAA' before '*.h -> 1.2.3.4' gives an empty A answer (the other order 1.2.3.4), two addresses answer "
+            "only the first"),
+    "exact": ("exact-address-does-not-shadow-other-family-wildcard",
+              "an exact address entry shadows only the wildcard entries for the requested type: with '*.e -> v6' and "
+              "'x.e -> v4' the AAAA answer for x.e is the wildcard's"),
+    "late": ("exception-on-canonical-name-cancels-cname",
+             "a 'name to itself' / 'A' / 'AAAA' exception on the canonical name makes the whole request pass through: the "
+             "upstream is asked for the alias and the CNAME entry is ignored"),
+    "case": ("cname-value-case-not-folded",
+             "the answer of a CNAME entry is not folded to lower case: 'Pass.h -> Pass.h' is not the self exception and "
+             "'a -> Target.org' does not continue at the entry for target.org"),
+    "err": ("upstream-error-question-not-restored",
+            "when the upstream cannot be reached for the canonical name the SERVFAIL reply carries the canonical name in "
+            "its question section instead of the client's question"),
+}
 
 
 # --------------------------------------------------------------------------- classification
 def classify(rec):
-    """Key of a reproduced disagreement, or None.  Narrow: pipeline level only, the
-    spec admits 'CNAME X, empty answer, nothing asked upstream' and the code did exactly
-    'CNAME X + the upstream's answer for X' with everything else in order."""
-    got, exp = rec.get("got"), rec.get("expected")
-    if rec.get("lvl") != "pipe" or not isinstance(got, dict) or not exp:
-        return None
-    x = got.get("cname")
-    if not x or got.get("odd") or not got.get("qok") or got.get("ips"):
-        return None
-    # (whatever the upstream said about X: its records, or none with its reply code)
-    if got.get("fromup") not in (x, "") or got.get("rcode") not in ("NOERROR", "NXDOMAIN", "SERVFAIL"):
-        return None
-    if len(got.get("ask", [])) != 1 or got["ask"][0][0] != x:
-        return None
-    for e in exp:
-        if e.get("cname") == x and not e.get("ask") and not e.get("ips") and not e.get("fromup"):
-            return KEY_FORWARD
-    return None
+    """Keys of a reproduced disagreement: the deviation label computed from the specification
+    ("tie", "case+fwd", "all", ...) names the findings that explain it; [] if none does."""
+    dev = rec.get("deviation") or ""
+    if not dev or rec.get("kind") == "hang" or rec.get("hang"):
+        return []
+    if dev == "all":
+        return sorted(FINDINGS)
+    return [d for d in dev.split("+") if d in FINDINGS]
 
 
 class Tally:
     def __init__(self):
         self.known = 0
+        self.by_dev = {}
         self.lock = threading.Lock()
 
-    def report(self, ctx, rec, what):
-        key = classify(rec)
+    def count(self, devs):
         with self.lock:
-            r = ctx.disagreement(key, rec, what if key is None else WHAT_FORWARD)
-            if r == "known":
+            for d, n in (devs or {}).items():
+                self.by_dev[d] = self.by_dev.get(d, 0) + n
+
+    def report(self, ctx, rec, what):
+        devs = classify(rec)
+        with self.lock:
+            if not devs:
+                return ctx.disagreement(None, rec, what)
+            # Every finding needed to explain the observation must be listed as open.
+            res = [ctx.disagreement(FINDINGS[d][0], rec, FINDINGS[d][1] if len(devs) == 1 else what) for d in devs]
+            if all(r == "known" for r in res):
                 self.known += 1
-            return r
+                return "known"
+            return "violation"
 
 
 # --------------------------------------------------------------------------- helpers
@@ -242,7 +262,7 @@ def part_replay(ctx, res, tally):
         for name, hdr, vs in sets:
             fh.write(json.dumps(hdr) + "\n")
             for v in vs:
-                fh.write(json.dumps({"t": v["t"], "v": v["v"], "vc": v["vc"], "o": v["o"]}) + "\n")
+                fh.write(json.dumps({"t": v["t"], "v": v["v"], "vc": v["vc"], "vk": v["vk"], "o": v["o"]}) + "\n")
                 nvec += 1
     rc, out, rows = go_rows(ctx, FPKG, "^TestZZVerifC06Replay$", {"VERIF_IN": vin}, "c06_replay_out.ndjson")
     summ = [r for r in rows if r.get("kind") == "summary"]
@@ -262,6 +282,7 @@ def part_replay(ctx, res, tally):
         raise vlib.Inconclusive("filtering replay aborted without a reproduced disagreement")
     if summ["vectors"] != nvec and not summ.get("aborted"):
         raise vlib.Inconclusive("filtering replay consumed %d of %d vectors" % (summ["vectors"], nvec))
+    tally.count(summ.get("deviations"))
     res["replay"] = summ
 
     # Pipeline sample: stratified by the outcome classes of Serve, seeded.
@@ -286,7 +307,7 @@ def part_replay(ctx, res, tally):
             fh.write(json.dumps(hdr) + "\n")
             for i in sorted(pick):
                 v = vs[i]
-                fh.write(json.dumps({"t": v["t"], "v": v["v"], "vc": v["vc"], "o": v["o"]}) + "\n")
+                fh.write(json.dumps({"t": v["t"], "v": v["v"], "vc": v["vc"], "vk": v["vk"], "o": v["o"]}) + "\n")
                 npipe += 1
     rc, out, rows = go_rows(ctx, DPKG, "^TestZZVerifC06Pipeline$", {"VERIF_IN": pin}, "c06_pipe_out.ndjson")
     psum = [r for r in rows if r.get("kind") == "summary"]
@@ -311,6 +332,7 @@ def part_replay(ctx, res, tally):
                                 "rehearsed" % psum["flaky"])
     if psum["vectors"] != npipe and not psum["hangs"]:
         raise vlib.Inconclusive("pipeline replay consumed %d of %d vectors" % (psum["vectors"], npipe))
+    tally.count(psum.get("deviations"))
     res["pipe"] = psum
 
 
@@ -403,7 +425,7 @@ def part_history(ctx, res, tally):
     with open(hin, "w") as fh:
         fh.write(json.dumps(hdr[0]) + "\n")
         for st in states:
-            fh.write(json.dumps({"k": "state", "id": ids[key(st["t"])], "t": st["t"], "v": st["v"]}) + "\n")
+            fh.write(json.dumps({"k": "state", "id": ids[key(st["t"])], "t": st["t"], "v": st["v"], "vk": st["vk"]}) + "\n")
         for w in walk:
             fh.write(json.dumps(w) + "\n")
     rc, out, rows = go_rows(ctx, FPKG, "^TestZZVerifC06History$", {"VERIF_IN": hin}, "c06_hist_out.ndjson")
@@ -420,6 +442,7 @@ def part_history(ctx, res, tally):
             tally.report(ctx, r, "after the edits %s on one live filter CheckHost(%s, %s) = %s is not admitted by the spec %s "
                          "for the current table %s" % (json.dumps(r["history"][-4:]), r["query"], r["qt"], json.dumps(r["got"]),
                                                       json.dumps(r["want"]), json.dumps(r["table"])))
+    tally.count(summ.get("deviations"))
     if summ["flaky"] and not ctx.violations:
         raise vlib.Inconclusive("%d wrong answers of the live filter were not reproduced by rehearsing the history" % summ["flaky"])
     if summ["steps"] != steps and not summ["aborted"]:
@@ -522,8 +545,8 @@ def part_trace(ctx, res, tally):
                 not_reproduced += 1
                 continue
             reproduced += 1
-            rec = {"lvl": lvl, "seed": ctx.seed, "tab": ln["tab"], "table": ln["table"], "h": x["h"], "qt": x["qt"],
-                   "query": x["query"],
+            rec = {"lvl": lvl, "seed": ctx.seed, "deviation": b.get("dev", ""), "tab": ln["tab"], "table": ln["table"],
+                   "h": x["h"], "qt": x["qt"], "query": x["query"],
                    "expect": b["exp"], "expected": pr.get("expected") or b["exp"], "got": pr.get("got"),
                    "hang": pr.get("hang", False),
                    "trace_observation": x}
@@ -570,8 +593,9 @@ def run(ctx):
     # a disagreement can be the very reason a class was not observed).
     # cname-empty is exactly the open finding: it is never observed while that is open.
     seen = {c for c, n in res["pipe"]["classes"].items() if n}
+    # (cname-upstream:error is the open finding about error replies, like cname-empty)
     need = {"cname-addresses", "addresses", "empty"} | {k + ":" + m for k in ("pass", "cname-upstream")
-                                                         for m in ("answer", "nodata", "nxdomain", "servfail")}
+                                                         for m in ("answer", "nodata", "nxdomain", "servfail")} | {"pass:error"}
     if not ctx.violations and not need <= seen:
         raise vlib.Inconclusive("pipeline sample did not exercise: %s" % sorted(need - seen))
 
@@ -601,7 +625,8 @@ def run(ctx):
         "flaky": rp["flaky"] + pp["flaky"] + hi["flaky"], "hangs": rp["hangs"] + pp["hangs"] + hi["hangs"],
         "history_walk": hi, "pipeline_tables_reached_by_update": pp.get("tables_reached_by_update"),
         "trace_detail": {k: tr[k] for k in ("filt_lines", "pipe_lines", "hist_lines", "hist_edits", "mixed_case_answers")},
-        "known_finding_disagreements": tally.known, "truncated_by_known_finding": 0,
+        "known_finding_disagreements": tally.known + sum(tally.by_dev.values()),
+        "known_finding_disagreements_by_deviation": tally.by_dev, "truncated_by_known_finding": 0,
         "clauses_witnessed": res["clauses_witnessed"], "termination": res["live"],
         "universes": [name for name, _, _ in sets],
         "exhaustive": not ctx.quick, "samples": samples,
